@@ -73,6 +73,10 @@ END = [
     ("nl_comline_tricky", "\n ! don't !> p ; \"\n", [], []),
     ("nl_doc_tricky", " !! d \"q ! z ; it's &\n", ["!! d \"q ! z ; it's &"], []),
     ("nl_doc_formfeed", " !! d\x0cf g\u2028h\n", ["!! d\x0cf g\u2028h"], []),
+    # doc comments of the other three forms whose text shows the introducing character pair again (only the first is a marker)
+    ("nl_predoc_pair_again", "\n  !> p `a!>b` !> c\n", [], ["!! p `a!>b` !> c"]),
+    ("nl_altdoc_pair_again", "\n  !* a `q!*r` lt\n  ! m ore\n\n", ["!! a `q!*r` lt", "!! m ore"], []),
+    ("nl_prealtdoc_pair_again", "\n  !| b 'x!|y' !| z\n  ! n ext\n", [], ["!! b 'x!|y' !| z", "!! n ext"]),
     ("nl_com_linesep", " ! c\u2028 zz = 9 \x0c yy = 8\n", [], []),
 ]
 FINAL = [("", []), (" ! c fin", []), (" !! d fin", ["!! d fin"]), ("\n", []), ("\n\n! c\n", [])]
@@ -376,7 +380,7 @@ def main():
     run = core.Run(
         PID,
         rule="case = token sequence over {code fragments, 16 literal kinds, 5 literals continued across lines} "
-        "x separator per gap from {9 continuation forms, 11 statement-ending forms incl. ;, trailing !/!! comments, "
+        "x separator per gap from {9 continuation forms, 19 statement-ending forms incl. ;, trailing !/!! comments, doc comments of all four forms (also repeating their introducing character pair in the text), "
         "own-line comment/doc/pre-doc lines, blank lines} x 5 file endings; exhaustive up to the stated length, then "
         "seeded random long sequences. Non-trivial: contains a literal or a continuation; distinct by file text.",
         assumptions=[
